@@ -53,6 +53,10 @@ F = {
             ("C01", "missed_failure", "cfg q=1 | T0: spawn 1; send 0 1; send 0 2; join 1 | T1: recv 0; droprx 0", "leak"),
             ("C04", "missed_failure", "cfg q=1 c=1 | T0: spawn 1; cwr 0 5; send 0 1; join 1 | T1: tryrecv 0; crd 0; droprx 0", "causality"),
             ("C05", "missed_failure", "cfg q=1 | T0: spawn 1; tryrecv 0; recv 0; join 1; droprx 0 | T1: send 0 1", "deadlock"),
+            # a bounded run reaches the failing order (message left when the receiver is dropped) that the unbounded run
+            # never explores
+            ("C15", "bound-not-subset", "cfg q=1 | T0: spawn 1; spawn 2; recv 0; tryrecv 0; recv 0; droprx 0; join 1; join 2 | T1: send 0 1; send 0 2 | T2: send 0 3",
+             "leakMsg"),
             # a run with a control call happens to reach the order the unrestricted run never explores
             ("C19", "controls-not-subset", "cfg q=1 | T0: spawn 1; recv 0; tryrecv 0; join 1; droprx 0 | T1: send 0 1; send 0 2; skip",
              "empty v:1", None, "cfg q=1 | T0: spawn 1; recv 0; tryrecv 0; join 1; droprx 0 | T1: send 0 1; send 0 2")]),
